@@ -118,6 +118,10 @@ static int raw_unit (H *h) { int b = vh_sample_granular (h->format) ? vh_bits (h
 static int c_write_raw_mis (H *h, int *e, char *w) { static unsigned char rb [256] ; sf_count_t r ; int u = raw_unit (h) ; if (u < 2) { *e = EXP_NEUTRAL ; return 1 ; } r = sf_write_raw (h->s, rb, u + 1) ; *e = EXP_FAIL ; snprintf (w, 100, "sf_write_raw with %d bytes (frame = %d bytes) returned %ld", u + 1, u, (long) r) ; return r == 0 ; }
 static int c_read_raw_mis (H *h, int *e, char *w) { static unsigned char rb [256] ; sf_count_t r ; int u = raw_unit (h) ; if (u < 2) { *e = EXP_NEUTRAL ; return 1 ; } r = sf_read_raw (h->s, rb, u + 1) ; *e = EXP_FAIL ; snprintf (w, 100, "sf_read_raw with %d bytes (frame = %d bytes) returned %ld", u + 1, u, (long) r) ; return r == 0 ; }
 
+/* strings: a valid title (accepted on write handles), and the empty title, which only SF_STR_SOFTWARE may be */
+static int c_setstr_ok (H *h, int *e, char *w) { int r ; if (h->mode == SFM_READ) { *e = EXP_NEUTRAL ; return 1 ; } r = sf_set_string (h->s, SF_STR_TITLE, "a title") ; last_rc = r ; snprintf (w, 100, "sf_set_string (TITLE, \"a title\") returned %d", r) ; *e = EXP_NEUTRAL ; return 1 ; }
+static int c_setstr_empty (H *h, int *e, char *w) { int r ; if (h->mode == SFM_READ) { *e = EXP_NEUTRAL ; return 1 ; } r = sf_set_string (h->s, SF_STR_TITLE, "") ; last_rc = r ; *e = EXP_FAIL ; snprintf (w, 100, "sf_set_string (TITLE, \"\") returned %d", r) ; return r != 0 ; }
+
 static CALL calls [] = {
 	{ "readf_short(3)", c_read_ok }, { "read_double(2ch)", c_read_items_ok }, { "writef_short(2)", c_write_ok }, { "write_float(ch)", c_write_float_ok },
 	{ "read_int(ch+1)", c_read_misaligned }, { "write_short(ch+1)", c_write_misaligned }, { "read_short(ch+1)", c_read_mis_short }, { "read_float(ch+1)", c_read_mis_float }, { "read_double(ch+1)", c_read_mis_double },
@@ -127,7 +131,7 @@ static CALL calls [] = {
 	{ "set_string(type 9999)", c_setstr_bad }, { "set_string(NULL)", c_setstr_null }, { "set_string(read-only)", c_setstr_readonly }, { "set_chunk(read-only)", c_setchunk_readonly },
 	{ "set_chunk(NULL)", c_setchunk_null }, { "get_string", c_getstr }, { "TRUNCATE(-3)", c_truncate_bad },
 	{ "SET_BROADCAST_INFO(size 10)", c_bext_small }, { "SET_BROADCAST_INFO(history size)", c_bext_hist }, { "SET_CART_INFO(size 10)", c_cart_small }, { "SET_INSTRUMENT(size-1)", c_inst_size },
-	{ "SET_CUE(size 2)", c_cue_size }, { "SET_INSTRUMENT(valid)", c_inst_set }, { "SET_CUE(valid)", c_cue_set }, { "write_raw(frame+1 bytes)", c_write_raw_mis }, { "read_raw(frame+1 bytes)", c_read_raw_mis }, { "SET_CHANNEL_MAP_INFO(ch+1)", c_chmap_size }, { "SET_CHANNEL_MAP_INFO(bad position)", c_chmap_value },
+	{ "SET_CUE(size 2)", c_cue_size }, { "set_string(TITLE)", c_setstr_ok }, { "set_string(TITLE,empty)", c_setstr_empty }, { "SET_INSTRUMENT(valid)", c_inst_set }, { "SET_CUE(valid)", c_cue_set }, { "write_raw(frame+1 bytes)", c_write_raw_mis }, { "read_raw(frame+1 bytes)", c_read_raw_mis }, { "SET_CHANNEL_MAP_INFO(ch+1)", c_chmap_size }, { "SET_CHANNEL_MAP_INFO(bad position)", c_chmap_value },
 } ;
 #define NCALLS ((int) (sizeof (calls) / sizeof (calls [0])))
 
@@ -197,10 +201,10 @@ static int count_fds (void) { DIR *d = opendir ("/proc/self/fd") ; int n = 0 ; i
 
 static void open_failures (void)
 {	SF_INFO si ; SNDFILE *s ; int f0, f1 ; size_t a0, a1 ; char path [300] ; const char *sd = getenv ("VERIF_SCRATCH_DIR") ; MEMF m ; int k ;
-	static const char *what [] = { "nonexistent path", "bad mode", "NULL SF_INFO", "invalid format for write", "virtual I/O without callbacks", "garbage file", "empty file for read", "directory", "zero channels write", "fd -1" } ;
+	static const char *what [] = { "nonexistent path", "bad mode", "NULL SF_INFO", "invalid format for write", "virtual I/O without callbacks", "garbage file", "empty file for read", "directory", "zero channels write", "fd -1", "virtual I/O SFM_RDWR on a valid file without a write callback", "virtual I/O SFM_RDWR on a valid file without a read callback" } ;	/* missing seek / tell callbacks are not judged: sf_open_virtual only demands them when the caller sets SF_INFO.seekable, and the docs say nothing else */
 	setvbuf (stdout, NULL, _IOFBF, 1 << 14) ;
 	(void) count_fds () ;
-	for (k = 0 ; k < 10 ; k++)
+	for (k = 0 ; k < 12 ; k++)
 	{	int pass ;
 		for (pass = 0 ; pass < 2 ; pass++)		/* first pass warms up lazily allocated libc state */
 		{	SF_VIRTUAL_IO nv ; int fd = -1 ;
@@ -217,7 +221,13 @@ static void open_failures (void)
 				case 6 : { FILE *fp = fopen (path, "w") ; fclose (fp) ; s = sf_open (path, SFM_READ, &si) ; unlink (path) ; } break ;
 				case 7 : s = sf_open (sd ? sd : "/tmp", SFM_READ, &si) ; break ;
 				case 8 : si.format = SF_FORMAT_WAV | SF_FORMAT_PCM_16 ; si.channels = 0 ; si.samplerate = 8000 ; s = sf_open (path, SFM_WRITE, &si) ; unlink (path) ; break ;
-				default : s = sf_open_fd (fd, SFM_READ, &si, 0) ; break ;
+				case 9 : s = sf_open_fd (fd, SFM_READ, &si, 0) ; break ;
+				default :
+				{	static MEMF img ; SF_VIRTUAL_IO v = MVIO ; int md = SFM_RDWR ;
+					if (img.d == NULL) vh_make_file (&img, SF_FORMAT_WAV | SF_FORMAT_PCM_16, 2, 8000, 100, 1) ;
+					img.pos = 0 ;
+					if (k == 10) v.write = NULL ; else v.read = NULL ;
+					s = sf_open_virtual (&v, md, &si, md == SFM_WRITE ? (void *) &m : (void *) &img) ; } break ;
 				}
 			a1 = vh_heap_bytes () ; f1 = count_fds () ;
 			if (pass == 0) { if (s) sf_close (s) ; continue ; }
